@@ -117,6 +117,7 @@ pub enum GlyphProblem {
     NoComponents,
     NotInGlyphOrder,
     NotInColorPalette(Color),
+    ComponentOffsetOutOfRange,
 }
 
 impl Display for GlyphProblem {
@@ -131,6 +132,9 @@ impl Display for GlyphProblem {
             GlyphProblem::MissingDefault => "has no default master",
             GlyphProblem::NoComponents => "has no components",
             GlyphProblem::NotInGlyphOrder => "has no entry in glyph order",
+            GlyphProblem::ComponentOffsetOutOfRange => {
+                "has a component offset that does not fit in 16 bits"
+            }
             GlyphProblem::NotInColorPalette(color) => {
                 _alloc = Some(format!("{color:?} has no entry in color palette"));
                 _alloc.as_ref().unwrap().as_str()
